@@ -44,6 +44,16 @@ CLAIMED = {
         "Trusts the per-field reference model (checked by C02/C03) and the independent ODS / XLSX producers.",
         "5/C04",
     ),
+    "C05": (
+        "exhaustive short row sequences + hypothesis tables against a dictionary model, three error modes",
+        "Every sequence of up to 4 (thorough 5) rows over a 9-symbol alphabet with duplicates at every pair of "
+        "positions and interleaved rows rejected for other reasons is read under IsUnique (3 key sets) and "
+        "DistinctCount (all operators and thresholds rotating) in both declaration orders and all three modes; "
+        "Hypothesis adds larger CIDs and tables. Verdicts, error rows and see-also rows come from an independent "
+        "dictionary model.",
+        "At most one IsUnique per CID (the quantifier's domain); key cells are canonical texts.",
+        "5/C05",
+    ),
     "C06": (
         "hypothesis differential between the three error modes + generated container faults",
         "The same generated CID and table are read in 'yield', 'continue' and 'raise' mode on fresh CIDs and the "
@@ -54,6 +64,15 @@ CLAIMED = {
         "Relational oracle: the modes are compared with each other (that is the property); the fault-free output "
         "itself is judged by C04.",
         "5/C06",
+    ),
+    "C08": (
+        "exhaustive operation sequences on one shared CID, differential against a freshly loaded CID",
+        "All sequences of 1-4 operations over a 15-operation alphabet (reads clean / with duplicates / abandoned / "
+        "never closed / ending in an error / in continue mode, validate with limit 0, k, none, writes with and "
+        "without close) are run on one shared Cid; each operation's outcome must equal its outcome on a fresh CID. "
+        "Hypothesis adds sequences of up to 30 operations.",
+        "Differential oracle (stated by the property); operations run one after the other, never interleaved.",
+        "5/C08",
     ),
     "C11": (
         "complete enumeration of the property x format x value x spelling matrix against documented expectations",
